@@ -32,7 +32,7 @@ type Cfg struct {
 
 type Cond struct {
 	Slot, Sum, TrackedSum, Diff, TrackedDiff, RecordDiff, MachTick int
-	MTime                                                            []int
+	MTime                                                          []int
 }
 
 func (c Cond) String() string {
@@ -40,7 +40,7 @@ func (c Cond) String() string {
 }
 
 type Query struct {
-	Limit                                          int
+	Limit                                         int
 	Active, Activated, Inactive, Deactivated, MTS []int // positions in the tracked list
 	Start, End                                    Cond
 }
@@ -57,6 +57,8 @@ type Case struct {
 	QSeed   int64 // queries derived from the produced records
 	NQ      int
 	Tag     string
+	Bk      string // persistent backends tracked side by side ("bbolt,badger,gorm" or a subset)
+	Batch   int    // their write-behind batch size
 }
 
 func b01(x bool) int {
@@ -70,6 +72,9 @@ func (c Case) Lines() []string {
 	out := []string{fmt.Sprintf("hist-case called=%s cx=%d changed=%s chx=%d rej=%d tracked=%s max=%d qseed=%d nq=%d",
 		core.ShowList(c.Cfg.Called), b01(c.Cfg.CalledExclude), core.ShowList(c.Cfg.Changed), b01(c.Cfg.ChangedExclude),
 		b01(c.Cfg.TrackRejected), core.ShowList(c.Cfg.Tracked), c.Cfg.Max, c.QSeed, c.NQ)}
+	if c.Bk != "" {
+		out[0] += fmt.Sprintf(" bk=%s batch=%d", c.Bk, c.Batch)
+	}
 	for _, q := range c.Queries {
 		out = append(out, "query "+strings.TrimPrefix(q.Line(), "hist find "))
 	}
@@ -132,6 +137,10 @@ func ParseCase(lines []string) (Case, error) {
 					c.QSeed, _ = strconv.ParseInt(v, 10, 64)
 				case "nq":
 					c.NQ, _ = strconv.Atoi(v)
+				case "bk":
+					c.Bk = v
+				case "batch":
+					c.Batch, _ = strconv.Atoi(v)
 				}
 			}
 		case "query":
@@ -216,15 +225,16 @@ func (t *recTracer) TransitionEnd(tx *am.Transition) {
 }
 
 type Run struct {
-	Lines    []string
-	Obs      []string
-	Failures []string
-	Err      string
-	Records  int
-	Txs      int
-	Queries  int
-	QHits    int
-	QErrs    int
+	Lines     []string
+	Obs       []string
+	Failures  []string
+	Err       string
+	Records   int
+	Txs       int
+	Queries   int
+	QHits     int
+	QErrs     int
+	BkQueries int
 }
 
 func names(all am.S, idx []int) am.S {
@@ -274,6 +284,19 @@ func Exec(c Case) *Run {
 	}
 	tracked := m.Index(mem.Config().TrackedStates)
 	run.Obs = append(run.Obs, "tracked="+core.ShowList(tracked))
+	var bks *backends
+	if c.Bk != "" {
+		batch := int32(c.Batch)
+		if batch <= 0 {
+			batch = 3
+		}
+		bks, err = openBackends(ctx, m, cfg, batch, c.Bk)
+		if err != nil {
+			run.Err = "backends: " + err.Error()
+			return run
+		}
+		defer bks.close()
+	}
 	slot := 0
 	var bnd []time.Time
 	tr := &recTracer{TracerNoOp: &am.TracerNoOp{Id: "ref"}, m: m, mem: mem, slot: &slot, bnd: &bnd}
@@ -286,6 +309,11 @@ func Exec(c Case) *Run {
 		o := r.Step(l)
 		if o.Crash != "" {
 			break
+		}
+		if bks != nil && c.Cfg.Max > 0 && c.Cfg.Max < 1000 {
+			// rotation of the persistent backends is decided at flush time from what has been written
+			// so far (write-behind, ~10ms batches): a paced workload, so that "bounded" is decidable
+			time.Sleep(12 * time.Millisecond)
 		}
 	}
 	time.Sleep(30 * time.Microsecond)
@@ -339,6 +367,7 @@ func Exec(c Case) *Run {
 		}
 		return ct
 	}
+	var asked []askedQuery
 	for _, q := range qs {
 		run.Queries++
 		aq := amhist.Query{Active: pos(q.Active), Activated: pos(q.Activated), Inactive: pos(q.Inactive), Deactivated: pos(q.Deactivated),
@@ -373,6 +402,24 @@ func Exec(c Case) *Run {
 			}
 			run.Obs = append(run.Obs, fmt.Sprintf("k=%d recs=%s", len(res), strings.Join(rs, ";")))
 		}
+		asked = append(asked, askedQuery{line: q.Line(), q: aq, limit: q.Limit, mem: run.Obs[len(run.Obs)-1]})
+	}
+	if bks != nil {
+		mr := c.Cfg.Max
+		if mr <= 0 {
+			mr = 1000
+		}
+		matched := 0
+		for _, t := range txs {
+			if specMatches(c.Cfg, t) {
+				matched++
+			}
+		}
+		bb := c.Batch
+		if bb <= 0 {
+			bb = 3
+		}
+		bks.compare(ctx, asked, bnd, len(db), matched > mr, mr, bb, run)
 	}
 	// Export / Import
 	ser, _, err := m.Export()
